@@ -14,7 +14,7 @@ import ast
 
 from .. import paths, storewalk, tables
 from ..model import AnalysisError, Project, reachable, self_attr, walk_no_nested
-from ..report import Result
+from ..report import Result, ctx_of
 from ..tables import RP
 from .common import site, src
 
@@ -163,6 +163,7 @@ def check_handlers(p, r):
     from .c12 import move_paths, wait_records, show_num
     seen = set()
     for s in belt_store_classes(p):
+        r.ctx = ctx_of(s)
         fi0 = s.methods['move_to_ready_items']
         if fi0.key in seen:
             continue
@@ -447,6 +448,7 @@ GATES = {
 def check_gate(p, r):
     seen = set()
     for s in belt_store_classes(p):
+        r.ctx = ctx_of(s)
         fi = s.methods['_do_reserve_put']
         if fi.key in seen:
             continue
@@ -525,6 +527,7 @@ def check_delayed_interrupts(p, r):
     spawners = {}
     seen = set()
     for s in belt_store_classes(p):
+        r.ctx = ctx_of(s)
         for ci in p.mro(s.ci.key):
             for fi in ci.methods.values():
                 if fi.key in seen:
@@ -616,6 +619,7 @@ def check_stall_delay_conversion(p, r):
     r.rule('C13.R7', 'every site that converts a slot count into a stall delay uses the same factor (item length / speed)', 2)
     seen = set()
     for s in belt_store_classes(p):
+        r.ctx = ctx_of(s)
         sites = []
         for ci in p.mro(s.ci.key):
             for fi in ci.methods.values():
@@ -695,6 +699,7 @@ def tracked_process_expr(fi, expr, depth=0):
 def check_interrupters(p, reach, r):
     belt_keys = set()
     for s in belt_store_classes(p):
+        r.ctx = ctx_of(s)
         for c in p.mro(s.ci.key):
             belt_keys.add(c.key)
     n = 0
